@@ -93,7 +93,11 @@ impl MultiPeerBackend for SubSocketBackend {
             .collect();
 
         for message in subs_msgs {
-            send_queue.send(Message::Message(message)).await.unwrap();
+            if send_queue.send(Message::Message(message)).await.is_err() {
+                // The connection failed before it could be told our subscriptions:
+                // drop it instead of registering a peer that was never updated.
+                return;
+            }
         }
 
         self.peers
